@@ -36,7 +36,9 @@ Record case := mk_case {
   (* Count, then Limit(2).Find continued from its result on a reusable handle; the page without Count *)
   o_cpage : list row; o_page : list row; o_cpage_n : Z;
   (* sibling chains of a reusable parent carrying three tie orderings: + Order(id), + Order(id desc) *)
-  o_sibasc : list row; o_sibdesc : list row
+  o_sibasc : list row; o_sibdesc : list row;
+  (* Find through gorm's own LIMIT / OFFSET rendering (not run when the statement is not valid SQLite) *)
+  g_run : bool; o_gfind : list row
 }.
 
 Definition has_lops (c : case) := match c_lops c with [] => false | _ => true end.
@@ -156,6 +158,7 @@ Definition more_model_agrees (c : case) : bool :=
    | _ => false
    end && rows_eqb (o_inlfind c) (inl_set c))
   && rows_eqb (o_page c) (page_of c) && rows_eqb (o_cpage c) (page_of c)
+  && (negb (g_run c) || rows_eqb (o_gfind c) (find (c_tbl c) (c_cond c) (c_ord c) st))
   && (match c_ord c with
       | OrdNone => rows_eqb (o_sibasc c) (find (c_tbl c) (c_cond c) OrdIdAsc st)
                    && rows_eqb (o_sibdesc c) (find (c_tbl c) (c_cond c) OrdIdDesc st)
@@ -177,6 +180,7 @@ Definition more_spec_holds (c : case) : bool :=
    | _ => false
    end && rows_eqb (o_inlfind c) (inl_set c))
   && rows_eqb (o_cpage c) (o_page c)
+  && (negb (g_run c) || rows_eqb (o_gfind c) (o_find c))
   && (has_lops c || (o_cpage_n c =? Z.of_nat (length (o_find c))))
   && (match c_ord c with
       | OrdNone => has_lops c ||
